@@ -136,14 +136,8 @@ pub fn run(tier: Tier, reg: &[VT]) -> Report {
 		if c03::zw_container(&shape) {
 			return;
 		}
-		let mut ex = c03::Explore { vt, shape, alphabet: &all, max_depth: depth, cap: u64::MAX, runs: 0, capped: false, per_depth: vec![0; depth + 1] };
-		let mut scratch = Acc::default();
-		ex.go(&mut vec![], &mut scratch, "C05.bytes");
-		for v in scratch.violations.iter_mut() {
-			v.property = "C05".into();
-			v.key = format!("C05|{}|decode", vt.name);
-		}
-		acc.merge(scratch);
+		let mut ex = c03::Explore::new("C05", c03::node, vt, &all, depth, u64::MAX);
+		ex.go(&mut vec![], acc, "C05.bytes");
 	});
 	rep.part("index bytes", &format!("every byte string of length <= {} (every index byte 0..=255 x payloads) decoded by every generated type vs the reference", depth), acc);
 
